@@ -141,6 +141,7 @@ func checkHandlerMaps(c *Ctx, via map[*ssa.Function][]string) {
 	}
 	sort.Slice(keys, func(i, j int) bool { return keys[i].owner+keys[i].field < keys[j].owner+keys[j].field })
 	c.Count("long-lived map fields written by concurrent handlers", len(keys))
+	c.MinInstances("C09.M1 handler-shared-maps-locked", len(keys), 4)
 	for _, mf := range keys {
 		lockIDs := map[string]int{}
 		for _, a := range written[mf] {
